@@ -1,4 +1,142 @@
-(* C10 -- Removing rows leaves no references to them.  Statements only; proofs in Proofs/RefIndex_proofs.v. *)
-From Coq Require Import ZArith List Bool.
+(* C10 -- Removing rows leaves no references to them.
+   Statements only; proofs are in Proofs/RefIndex_proofs.v and Proofs/RefIndex_removal.v.  The model
+   (Model/RefIndex.v) is hand-written and compared with the running code on every run (harness/props/c10.py). *)
+From Coq Require Import ZArith List Bool Arith.
 Import ListNotations.
-Require Import Grist.Model.RefIndex.
+Require Import Grist.Model.RefIndex Grist.Proofs.RefIndex_proofs Grist.Proofs.RefIndex_removal.
+
+Definition no_clear (ops : list op) : bool := forallb (fun o => negb (is_clear o)) ops.
+
+(* The reverse index of a reference column is EXACTLY the reverse of its cells, after any sequence of
+   set / unset / copy_from_column / growto on a new column: for every target t the set kept for t is the
+   increasing list of the rows whose cell refers to t.  No operation raises. *)
+Theorem inverse_map_exact : forall hack k ops, no_clear ops = true ->
+  exists c, run hack k ops = Ok c /\
+    forall t, inv_get t (rc_inv c) = filter (fun r => memZ t (refs c r)) (seq 0 (length (rc_data c))).
+Proof.
+  intros hack k ops H.
+  destruct (run_from_ok hack false ops (col_new k) (col_new_ok k) (or_intror H)) as [c [E [Hok _]]].
+  exists c. split; [exact E|]. apply inv_ok_exact. exact Hok.
+Qed.
+
+(* The full statement (arbitrary sequences INCLUDING clear) is false for the code as it is: BaseColumn.clear is
+   not overridden by BaseReferenceColumn and leaves the relation's entries behind. *)
+Definition inverse_map_exact_full : Prop := forall hack k ops,
+  exists c, run hack k ops = Ok c /\
+    forall t, inv_get t (rc_inv c) = filter (fun r => memZ t (refs c r)) (seq 0 (length (rc_data c))).
+
+Theorem inverse_map_exact_refuted_clear : ~ inverse_map_exact_full.
+Proof.
+  intros H. destruct (H (fun _ => None) KRef [OSet 1 (CInt 1); OClear]) as [c [E Hc]].
+  vm_compute in E. inversion E; subst c. specialize (Hc 1%Z). vm_compute in Hc. discriminate.
+Qed.
+
+(* With the proposed repair (clear also resets the relation) the full statement holds. *)
+Theorem inverse_map_exact_with_fixed_clear : forall hack k ops,
+  exists c, run_from hack true (col_new k) ops = Ok c /\
+    forall t, inv_get t (rc_inv c) = filter (fun r => memZ t (refs c r)) (seq 0 (length (rc_data c))).
+Proof.
+  intros hack k ops.
+  destruct (run_from_ok hack true ops (col_new k) (col_new_ok k) (or_introl eq_refl)) as [c [E [Hok _]]].
+  exists c. split; [exact E|]. apply inv_ok_exact. exact Hok.
+Qed.
+
+(* doBulkRemoveRecord on a table T whose rows are wd_rows, in a world of data Ref/RefList columns of T (w_own) and
+   targeting T (w_back), every one with an exact reverse index and with references only on existing rows:
+   the removal succeeds; afterwards, for every column targeting T and every row r, the cell is the old cell with
+   exactly the removed ids filtered out in order ([] becomes None, a Ref becomes 0; the table's own removed rows
+   are reset), so no cell refers to a removed row; and the world satisfies the hypotheses again. *)
+Theorem C10_removal : forall hack wd removed, world_ok wd ->
+  let existing := filter (fun r => memN r (wd_rows wd)) removed in
+  let targets := map Z.of_nat removed in
+  exists wd', remove_rows hack wd removed = Ok wd' /\
+    wd_rows wd' = filter (fun r => negb (memN r removed)) (wd_rows wd) /\
+    world_ok wd' /\
+    Forall2 (fun w w' =>
+               w_own w' = w_own w /\ w_back w' = w_back w /\ rc_kind (w_col w') = rc_kind (w_col w) /\
+               forall r, raw_get (w_col w') r = expected_cell w existing targets r /\
+                         (w_back w = true -> forall t, In t targets -> ~ In t (refs (w_col w') r)))
+            (wd_cols wd) (wd_cols wd').
+Proof.
+  intros hack wd removed Hok existing targets.
+  destruct (remove_rows_spec hack wd removed Hok) as [wd' [E [Hr [Hok' HF]]]].
+  exists wd'. split; [exact E|]. split; [exact Hr|]. split; [exact Hok'|].
+  fold existing in HF. fold targets in HF.
+  induction HF as [|w w' l l' H HF IH]; constructor; [|exact IH].
+  cbv beta in H. destruct H as [Ho [Hb [Hk Hg]]]. split; [exact Ho|]. split; [exact Hb|]. split; [exact Hk|].
+  intros r. split; [apply Hg|]. intros Hback t Ht. unfold refs. rewrite Hk, Hg.
+  apply expected_no_refs; assumption.
+Qed.
+
+(* ... through any history of removals *)
+Theorem C10_removal_histories : forall hack l wd, world_ok wd ->
+  exists wd', remove_seq hack wd l = Ok wd' /\ world_ok wd'.
+Proof. intros hack l wd H. apply remove_seq_ok. exact H. Qed.
+
+(* the hypothesis world_ok is what clear-free column histories give *)
+Theorem world_ok_from_runs : forall hack k ops c (trows rows : list nat) (own back : bool),
+  no_clear ops = true -> run hack k ops = Ok c ->
+  (forall r, refs c r <> [] -> In r (if own then trows else rows)) ->
+  wcol_ok trows {| w_col := c; w_rows := rows; w_own := own; w_back := back |}.
+Proof.
+  intros hack k ops c trows rows own back Hn E Hr. split.
+  - cbn [w_col]. apply (run_inv_ok hack k ops c Hn E).
+  - exact Hr.
+Qed.
+
+(* Without an exact index (what a clear leaves behind) the cleanup goes wrong: a Ref cell pointing at a row that
+   is NOT removed is reset to 0, and a RefList cell that has become None makes the removal raise TypeError. *)
+Definition stale_ref : res refcol := run (fun _ => None) KRef [OSet 1 (CInt 1); OClear; OSet 1 (CInt 2)].
+Definition stale_reflist : res refcol := run (fun _ => None) KRefList [OSet 1 (CList [1%Z]); OClear; OGrow 2].
+
+Theorem C10_refuted_stale_index :
+  (exists c wd', stale_ref = Ok c /\
+     remove_rows (fun _ => None)
+        {| wd_rows := [1; 2]; wd_cols := [{| w_col := c; w_rows := [1]; w_own := false; w_back := true |}] |} [1]
+       = Ok wd' /\
+     raw_get c 1 = CInt 2 /\ cell_without KRef (raw_get c 1) [1%Z] = CInt 2 /\
+     map (fun w => raw_get (w_col w) 1) (wd_cols wd') = [CInt 0]) /\
+  (exists c, stale_reflist = Ok c /\
+     remove_rows (fun _ => None)
+        {| wd_rows := [1; 2]; wd_cols := [{| w_col := c; w_rows := [1]; w_own := false; w_back := true |}] |} [1]
+       = Err ETypeError).
+Proof.
+  split.
+  - eexists. eexists. split; [vm_compute; reflexivity|]. split; [vm_compute; reflexivity|].
+    repeat split; vm_compute; reflexivity.
+  - eexists. split; [vm_compute; reflexivity|]. vm_compute. reflexivity.
+Qed.
+
+(* Non-vacuity: a world with a Ref column and a RefList column pointing at T (rows 1..3) and a self-reference of T;
+   removing rows 1 and 3 filters [1;2;3;2] to [2;2], resets the Ref to 1, empties [3] to None. *)
+Definition ex_ref : res refcol := run (fun _ => None) KRef [OSet 1 (CInt 1); OSet 2 (CInt 2); OSet 4 (CStr [97%Z])].
+Definition ex_rl : res refcol :=
+  run (fun _ => None) KRefList [OSet 1 (CList [1; 2; 3; 2]%Z); OSet 2 (CList [3%Z]); OSet 3 (CList [2%Z])].
+Definition ex_self : res refcol := run (fun _ => None) KRef [OSet 1 (CInt 3); OSet 2 (CInt 1); OSet 3 (CInt 2)].
+
+Example C10_nonvacuous : exists c1 c2 c3 wd',
+  ex_ref = Ok c1 /\ ex_rl = Ok c2 /\ ex_self = Ok c3 /\
+  let wd := {| wd_rows := [1; 2; 3];
+               wd_cols := [{| w_col := c1; w_rows := [1; 2; 4]; w_own := false; w_back := true |};
+                           {| w_col := c2; w_rows := [1; 2; 3]; w_own := false; w_back := true |};
+                           {| w_col := c3; w_rows := []; w_own := true; w_back := true |}] |} in
+  world_ok wd /\ remove_rows (fun _ => None) wd [1; 3] = Ok wd' /\
+  wd_rows wd' = [2] /\
+  map (fun w => map (raw_get (w_col w)) [1; 2; 3; 4]) (wd_cols wd') =
+    [[CInt 0; CInt 2; CInt 0; CStr [97%Z]]; [CList [2; 2]%Z; CNone; CList [2%Z]; CNone];
+     [CInt 0; CInt 0; CInt 0; CInt 0]].
+Proof.
+  eexists. eexists. eexists. eexists.
+  split; [vm_compute; reflexivity|]. split; [vm_compute; reflexivity|]. split; [vm_compute; reflexivity|].
+  cbv zeta. split; [|split; [vm_compute; reflexivity|split; vm_compute; reflexivity]].
+  unfold world_ok. cbn [wd_rows wd_cols].
+  apply Forall_cons; [split|apply Forall_cons; [split|apply Forall_cons; [split|apply Forall_nil]]];
+    cbn [w_col w_rows w_own col_rows].
+  - apply (run_inv_ok (fun _ => None) KRef [OSet 1 (CInt 1); OSet 2 (CInt 2); OSet 4 (CStr [97%Z])]); reflexivity.
+  - intros r. do 5 (destruct r as [|r]; [vm_compute; intuition congruence|]). vm_compute. destruct r; congruence.
+  - apply (run_inv_ok (fun _ => None) KRefList
+             [OSet 1 (CList [1; 2; 3; 2]%Z); OSet 2 (CList [3%Z]); OSet 3 (CList [2%Z])]); reflexivity.
+  - intros r. do 4 (destruct r as [|r]; [vm_compute; intuition congruence|]). vm_compute. destruct r; congruence.
+  - apply (run_inv_ok (fun _ => None) KRef [OSet 1 (CInt 3); OSet 2 (CInt 1); OSet 3 (CInt 2)]); reflexivity.
+  - intros r. do 4 (destruct r as [|r]; [vm_compute; intuition congruence|]). vm_compute. destruct r; congruence.
+Qed.
